@@ -289,6 +289,24 @@ theorem jump_is_c04_run {σ : Type} (g : Gen σ) (c : Cfg) (exact : Bool) (fuel 
     (jumpS g c exact fuel x t st).1.recs = run c exact x t (jumpS g c exact fuel x t st).1.inputs :=
   jumpS_recs_eq_run g c exact fuel x t st
 
+/-- **never_starved.**  The generator serves exactly the variates an iteration needs (one per request): the `starved` stop of
+the list-based C04 model - an artefact of handing it a too short draw list - cannot occur in the streamed loop -/
+theorem never_starved {σ : Type} (g : Gen σ) (c : Cfg) (exact : Bool) (fuel : Nat) (x : Vec) (t : Rat) (st : σ) :
+    (jumpS g c exact fuel x t st).1.exit ≠ .stop .starved := by
+  induction fuel generalizing x t st with
+  | zero => simp only [jumpS]; split <;> simp
+  | succ fuel ih =>
+    simp only [jumpS]
+    split
+    · split
+      · rename_i w hw
+        intro h
+        simp only [Exit.stop.injEq] at h
+        subst h
+        exact stepS_never_starved g c.set (c.ev x t) exact x t st hw
+      · exact ih _ _ _
+    · simp
+
 /-! ### (3) outputs are a function of the stream only -/
 
 /-- nothing but the world enters: the output and the world afterwards are functions of the world before
